@@ -159,7 +159,7 @@ def check_case(case):
     lines, idx = build(case)
     if case["d"] == "INCLUDE":
         cwd = os.getcwd()
-        with tempfile.TemporaryDirectory(prefix="c05_") as td:
+        with common.scratch_dir(chdir=False) as td:
             open(os.path.join(td, "empty.inc"), "w").close()
             os.chdir(td)
             try:
